@@ -461,6 +461,49 @@ def judge_inherit(case):
         unload(ref)
 
 
+def judge_local_later(case):
+    """a class / function declared inside a function refers to a MODULE-LEVEL class defined later (legal: the name is global when
+    the declaration is first used); it behaves as the same declaration with the class defined first"""
+    wrap, what = case["wrap"], case.get("what", "class")
+    if wrap not in WRAPS or what not in ("class", "param", "return", "varargs"):
+        raise HarnessError("bad local-later case")
+    _n[0] += 1
+    L = f"Later{_n[0]}"
+    later = f"class {L}(utype.Schema):\n    w: int\n"
+
+    def body(ref):
+        a = ann(wrap, ref)
+        if what == "class":
+            return f"def make():\n    class Loc(utype.Schema):\n        nxt: {a} = {DEFAULT[wrap]}\n    return Loc.__from__\n"
+        if what == "param":
+            return f"def make():\n    @utype.parse\n    def fn(nxt: {a} = None):\n        return {{'nxt': nxt}}\n    return lambda d: fn(**d)\n"
+        if what == "varargs":
+            return f"def make():\n    @utype.parse\n    def fn(*r: {a}):\n        return {{'nxt': list(r)}}\n    return lambda d: fn(d['nxt'], d['nxt'])\n"
+        return f"def make():\n    @utype.parse\n    def fn(nxt) -> {a}:\n        return nxt\n    return lambda d: {{'nxt': fn(**d)}}\n"
+    head = "import utype\nfrom typing import *\n"
+    fwd = load(head + body(repr(L)) + "ENTRY = make()\n" + later, "llf")
+    ref = load(head + later + body(L) + "ENTRY = make()\n", "llr")
+    try:
+        def child(v):
+            return {"plain": v, "opt": v, "list": [v], "dict": {"k": v}, "union": v, "tuple": (v, 1), "list_opt": [v, None], "dict_list": {"k": [v]}}[wrap]
+        fails = []
+        for attempt in ("first", "second"):
+            a = oracle.outcome(fwd.ENTRY, {"nxt": child({"w": "2"})})
+            b = oracle.outcome(ref.ENTRY, {"nxt": child({"w": "2"})})
+            if b[0] != "ok" or a[0] in ("other", "hang"):
+                return {"status": "other", "fails": fails}
+            if a[0] != "ok":
+                fails.append((f"local-declaration-with-a-later-module-level-class/{what}-fails/{attempt}-call", {"wrap": wrap, "error": str(a[1])[:200]}))
+                break
+            if not oracle.equal(_strip_names(oracle.plain(a[1])), _strip_names(oracle.plain(b[1]))):
+                fails.append((f"local-declaration-with-a-later-module-level-class/{what}-result-differs", {"wrap": wrap, "forward": oracle.short(oracle.plain(a[1])), "direct": oracle.short(oracle.plain(b[1]))}))
+                break
+        return {"status": "ok", "fails": fails, "unresolved": True}
+    finally:
+        unload(fwd)
+        unload(ref)
+
+
 def _strip_names(x):
     if isinstance(x, dict):
         return {k: _strip_names(v) for k, v in x.items() if k != "__cls__"}
@@ -470,6 +513,8 @@ def _strip_names(x):
 
 
 def run_case(case):
+    if case.get("part") == "local_later":
+        return judge_local_later(case)
     if case.get("part") == "inherit":
         return judge_inherit(case)
     if case.get("part") == "twins":
@@ -576,7 +621,7 @@ def campaign(ctx):
     def body(case):
         r = run_case(case)
         ctx.label(f"status_{r['status']}")
-        if case.get("part") in ("twins", "inherit"):
+        if case.get("part") in ("twins", "inherit", "local_later"):
             ctx.label("part_" + case["part"])
             ctx.nt(case)
         else:
@@ -611,3 +656,11 @@ def campaign(ctx):
                         continue
                     ctx.ev()
                     body({"part": "inherit", "wrap": wrap, "first": first, "base": base, "style": style})
+    # declarations local to a function that name a module-level class defined later: enumerated completely
+    for wrap in WRAPS:
+        for what in ("class", "param", "return", "varargs"):
+            idx += 1
+            if idx % ctx.nshards != ctx.shard:
+                continue
+            ctx.ev()
+            body({"part": "local_later", "wrap": wrap, "what": what})
